@@ -244,3 +244,13 @@ Theorem c15_lex_examples :
   Lex.lex_needs_more [97; 92; 92; 10]%N = false /\ Lex.lex_needs_more [34; 97; 92; 34; 10]%N = true.
 Proof. exact Lex.lex_examples. Qed.
 Print Assumptions c15_lex_examples.
+
+(** Regenerated obligations: the translator recognised every shape it read (an unrecognised shape
+    is recorded in the table instead of being dropped, and breaks these). *)
+Theorem c15_cache_shapes_recognised : cache_unrecognised = [].
+Proof. exact cache_shapes_recognised. Qed.
+Print Assumptions c15_cache_shapes_recognised.
+
+Theorem c15_incomplete_shapes_recognised : incomplete_unrecognised = [].
+Proof. exact incomplete_shapes_recognised. Qed.
+Print Assumptions c15_incomplete_shapes_recognised.
